@@ -1,27 +1,68 @@
 from .common import H, TOPOS_QUICK
 
+# One harness (c16_pstl); one case = one ParallelSTL algorithm x one generated input x one thread count.
+# Quick: asan + plain on the three quick topologies. Thorough: the same scaled up, more topologies (incl. 32 and
+# 48 pool threads on 16 CPUs: partial_sum's empty trailing blocks need more threads than ~sqrt(n)) and tsan as a
+# further schedule-perturbing config (value oracles only; TSan reports are counted, never a verdict here).
+
 
 def c16(tier):
     runs = []
     if tier == "quick":
         for t in TOPOS_QUICK:
-            runs.append(H("c16_pstl", "plain", 700, t, timeout_per_case=20))
-            runs.append(H("c16_pstl", "asan", 300, t, timeout_per_case=40))
+            runs.append(H("c16_pstl", "plain", 1500, t, timeout_per_case=20))
+            runs.append(H("c16_pstl", "asan", 500, t, timeout_per_case=40))
+        runs.append(H("c16_pstl", "plain", 150, "12,12,12,12", timeout_per_case=60, params=dict(maxn=20000)))
     else:
         for t in [None, "8,8", "4,4,4,4", "3,5", "1,1,1,1", "smt:2x2x2"]:
-            runs.append(H("c16_pstl", "plain", 5000, t, timeout_per_case=20))
-            runs.append(H("c16_pstl", "asan", 1500, t, timeout_per_case=40))
-        runs.append(H("c16_pstl", "tsan", 600, None, timeout_per_case=90))
-        runs.append(H("c16_pstl", "tsan", 600, "4,4,4,4", timeout_per_case=90))
+            runs.append(H("c16_pstl", "plain", 12000, t, timeout_per_case=20))
+            runs.append(H("c16_pstl", "asan", 3000, t, timeout_per_case=40))
+        for t in ["12,12,8", "12,12,12,12"]:
+            runs.append(H("c16_pstl", "plain", 1500, t, timeout_per_case=60, params=dict(maxn=20000)))
+        runs.append(H("c16_pstl", "plain", 600, "12,12,8", cpus=4, timeout_per_case=120, params=dict(maxn=20000)))
+        runs.append(H("c16_pstl", "tsan", 1200, None, timeout_per_case=90))
+        runs.append(H("c16_pstl", "tsan", 1200, "4,4,4,4", timeout_per_case=90))
     return runs
 
 
 SPEC = dict(
     runs=c16,
-    technique="runtime monitoring: differential testing of the real ParallelSTL entry points against std:: algorithms",
-    level_text="",
-    level_note="",
-    rule="",
-    require={},
-    assumptions=[],
+    technique="runtime monitoring: the real ParallelSTL entry points run on generated inputs and are compared with "
+              "the std:: algorithms; instrumented user function objects / iterators (call counts per pool thread, "
+              "range check of every element they are applied to, value-, position- and thread-dependent delays); "
+              "ASan+UBSan with Galois asserts on, guard pages around raw-pointer inputs",
+    level_text="sort, partition, count_if, find_if, accumulate, map_reduce, partial_sum and destroy are called through "
+               "std::vector / raw-pointer / std::deque / std::list / boost::counting_iterator / user-defined checked "
+               "random-access iterators, on u32 and {key,id} elements, for sizes 0..100000 (0, 1, around the 1024 "
+               "cut-off, block multiples and non-multiples), key patterns (all-equal, sorted, reversed, few distinct, "
+               "organ-pipe, ...), predicate patterns (all-true/false, halves, alternating, whole-block, mirrored, "
+               "single element, sparse), comparators (<, >, modular classes, total order, two-argument form), "
+               "1..max threads on 1-4 socket virtual topologies, with delays inside predicates/comparators/iterator "
+               "arithmetic and failpoint/spin noise that decide which thread claims which block. Oracles: partition = "
+               "valid partition point + permutation; sort = ordered by the comparator + permutation (stability not "
+               "required); find_if = last iff no match else any matching element; count_if/accumulate/map_reduce/"
+               "partial_sum = the std:: value (exact arithmetic only); destroy = every destructor exactly once. "
+               "Held on the executions observed, not on all inputs or interleavings.",
+    level_note="Trusts libstdc++'s std::partition/sort/partial_sum/accumulate as reference, the region hook to tell the "
+               "parallel phase from the caller-side clean-up, and that virtual topologies exercise the same code as real "
+               "multi-socket machines. Reductions are only checked for associative+commutative operations whose "
+               "identity argument is a true identity (what Reducible documents).",
+    rule="case = (component, iterator kind, element type, size, key/predicate pattern, comparator/operation, delay "
+         "pattern, thread count) on one virtual topology; non-trivial iff the input is above the component's serial "
+         "cut-off so that Galois' own parallel code runs (sort/partition n > 1024, partial_sum n >= 1024, others n >= 1; "
+         "the scalar destroy overload is trivial); distinct by (component, iterator, element type, n, threads, sockets, "
+         "pattern, comparator/operation, delay kind, observed outcome class, number of pool threads that executed a "
+         "user function object)",
+    require={"cases_sort": 30, "cases_partition": 60, "cases_count_if": 15, "cases_find_if": 25, "cases_accumulate": 15,
+             "cases_map_reduce": 15, "cases_partial_sum": 20, "cases_destroy": 5,
+             "parallel_path_cases": 300, "multi_thread_cases": 150, "multi_socket_cases": 50,
+             "delays_injected": 1000, "find_if_cases_with_match": 10, "find_if_cases_without_match": 3,
+             "partition_serial_cleanup_calls": 1000, "sort_unstable_adjacent_pairs": 1},
+    assumptions=["std:: algorithms of libstdc++ are the reference",
+                 "binary operations given to accumulate/map_reduce are associative and commutative and the identity "
+                 "argument is their identity (Reducible's documented contract); floating-point inputs are exactly summable",
+                 "virtual topologies come from the GALOIS_VERIF_TOPO hook; threads are not bound",
+                 "the three-argument accumulate(first,last,identity) overload is not exercised: it does not compile "
+                 "(its unqualified inner call is ambiguous with std::accumulate via ADL); performance (the quadratic "
+                 "behaviour of sort on one dominating key) is outside the statement"],
 )
